@@ -193,11 +193,13 @@ def build(ctx):
             for p_i_, lo_, hi_ in ((float(pv["pressure"][44]), 1 - 1e-9, 1 + 1e-9), (6000.0, 1 - 1e-9, 1 + 2e-3)):
                 fp = Fp.from_table(pd.DataFrame(pv), pd.DataFrame(kr_t), rho, 0.1, 0.1, p_i_)
                 ms = np.asarray(fp.pvt_props["m-scaled"], dtype=float)
-                ok = np.all(np.diff(ms) > 0) and ms[0] == 0.0 and lo_ <= float(fp.m_i) <= hi_ and 0 <= float(fp.m_scaled_func(1000.0)) < 1
+                ok = (np.all(np.diff(ms) > 0) and ms[0] == 0.0 and lo_ <= float(fp.m_i) <= hi_ and 0 <= float(fp.m_scaled_func(1000.0)) < 1
+                      and abs(float(fp.m_scaled_func(p_i_)) - float(fp.m_i)) <= 1e-12                     # the reported m_i IS the scaled value at p_i
+                      and float(fp.m_scaled_func(p_i_ - 1.0)) < float(fp.m_i))                             # a frac-face pressure just below p_i maps below it
                 if not ok:
                     break
             if not ok:
-                return {"reproduced": True, "input": {"table": "synthetic linear 1/B", "reference density factor": factor, "p_i": p_i_}, "observed": {"m-scaled at the first table pressure": float(ms[0]), "m_i": float(fp.m_i), "min increment": float(np.diff(ms).min()), "m_scaled(1000)": float(fp.m_scaled_func(1000.0))}, "required": "zero at the first table pressure, strictly increasing, m_i == 1 (on a node; within interpolation error above 1 between nodes), frac-face value in [0, 1)"}
+                return {"reproduced": True, "input": {"table": "synthetic linear 1/B", "reference density factor": factor, "p_i": p_i_}, "observed": {"m-scaled at the first table pressure": float(ms[0]), "m_i": float(fp.m_i), "m_scaled_func(p_i)": float(fp.m_scaled_func(p_i_)), "m_scaled_func(p_i - 1)": float(fp.m_scaled_func(p_i_ - 1.0)), "min increment": float(np.diff(ms).min()), "m_scaled(1000)": float(fp.m_scaled_func(1000.0))}, "required": "zero at the first table pressure, strictly increasing, m_i == 1 (on a node; within interpolation error above 1 between nodes), frac-face value in [0, 1)"}
         return replay_m3(w)
 
     obs.append(Obligation("from_table.m3", "from_table: the wrapper receives the table's pressure column and the cumulative trapezoid of the documented mobility of the table interpolants; m-scaled is a constant multiple of it", ft,
